@@ -177,6 +177,16 @@ theorem trimLeft_blank_append {w n : List Char} (hw : Blank w) (hn : ∀ c ∈ n
     simp only [trimLeft] at this ⊢
     simp [hx, this]
 
+theorem trimLeft_blank_cons {w : List Char} (hw : Blank w) {c : Char} {rest : List Char}
+    (hc : isSpace c = false) : trimLeft (w ++ c :: rest) = c :: rest := by
+  induction w with
+  | nil => simp [trimLeft, hc]
+  | cons x xs ih =>
+    have hx : isSpace x = true := hw x (by simp)
+    have := ih (fun c m => hw c (List.mem_cons_of_mem _ m))
+    simp only [trimLeft] at this ⊢
+    simp [hx, this]
+
 theorem trimRight_append_blank {w n : List Char} (hw : Blank w) (hn : ∀ c ∈ n, isSpace c = false) :
     trimRight (n ++ w) = n := by
   have h1 : Blank w.reverse := fun c m => hw c (by simpa using m)
@@ -494,7 +504,6 @@ theorem parseBounds_of_isBounds {s : List Char} {b : Bounds} (h : IsBounds s b) 
   have c3 : ',' ∉ w6 ++ n4 := not_mem_append hw6.no_comma h4.no_comma
   have t0 : trimRight (n1 ++ w1) = n1 := trimRight_append_blank hw1 h1.no_space
   have t1 : trimRight (trimLeft (w2 ++ n2 ++ w3)) = n2 := by
-    have hb : ∀ c ∈ w3, isSpace c = true := hw3
     rw [List.append_assoc]
     -- trimLeft stops at the first character of n2
     have hne := h2.ne_nil
@@ -502,14 +511,8 @@ theorem parseBounds_of_isBounds {s : List Char} {b : Bounds} (h : IsBounds s b) 
     | nil => exact absurd rfl hne
     | cons c cs =>
       have hc : isSpace c = false := h2.no_space c (by simp)
-      have : trimLeft (w2 ++ ((c :: cs) ++ w3)) = (c :: cs) ++ w3 := by
-        induction w2 with
-        | nil => simp [trimLeft, hc]
-        | cons x xs ih =>
-          have hx : isSpace x = true := hw2 x (by simp)
-          have := ih (fun c m => hw2 c (List.mem_cons_of_mem _ m))
-          simp only [trimLeft] at this ⊢
-          simp [hx, this]
+      have : trimLeft (w2 ++ ((c :: cs) ++ w3)) = (c :: cs) ++ w3 :=
+        trimLeft_blank_cons hw2 hc
       rw [this]
       exact trimRight_append_blank hw3 h2.no_space
   have t2 : trimRight (trimLeft (w4 ++ n3 ++ w5)) = n3 := by
@@ -519,14 +522,8 @@ theorem parseBounds_of_isBounds {s : List Char} {b : Bounds} (h : IsBounds s b) 
     | nil => exact absurd rfl hne
     | cons c cs =>
       have hc : isSpace c = false := h3.no_space c (by simp)
-      have : trimLeft (w4 ++ ((c :: cs) ++ w5)) = (c :: cs) ++ w5 := by
-        induction w4 with
-        | nil => simp [trimLeft, hc]
-        | cons x xs ih =>
-          have hx : isSpace x = true := hw4 x (by simp)
-          have := ih (fun c m => hw4 c (List.mem_cons_of_mem _ m))
-          simp only [trimLeft] at this ⊢
-          simp [hx, this]
+      have : trimLeft (w4 ++ ((c :: cs) ++ w5)) = (c :: cs) ++ w5 :=
+        trimLeft_blank_cons hw4 hc
       rw [this]
       exact trimRight_append_blank hw5 h3.no_space
   have t3 : trimLeft (w6 ++ n4) = n4 := trimLeft_blank_append hw6 h4.no_space
@@ -564,5 +561,9 @@ theorem isBounds_of_parseBounds {s : List Char} {b : Bounds} (h : parseBounds s 
       simp [List.append_assoc]
     · simp at h
   · simp at h
+
+theorem all_append {P : Char → Prop} {a b : List Char} (ha : ∀ c ∈ a, P c) (hb : ∀ c ∈ b, P c) :
+    ∀ c ∈ a ++ b, P c := fun c m => (List.mem_append.mp m).elim (ha c) (hb c)
+
 
 end Ems.Cli
